@@ -1117,3 +1117,24 @@ pub fn replay(_ctx: &CheckCtx, sub: &str, case: serde_json::Value) -> Result<Opt
     let c: Case = serde_json::from_value(case).map_err(|e| e.to_string())?;
     Ok(run_case(&c).1)
 }
+
+// ------------------------------------------------------------------------------------------------
+// C02's cross-thread sub-check: the same schedule family, only the lost-wake rules (see histprops.rs)
+
+const C02_RULES: &[&str] = &["C10.wake", "C10.first_poll"];
+
+pub fn xthread_for_c02(ctx: &CheckCtx) -> Option<Found> {
+    use crate::props::histprops::xthread_relabel;
+    STEER_F7.store(false, Ordering::SeqCst);
+    if let Some(f) = ctx.run_replays::<Case, _>("xthread.exec", |c| xthread_relabel(run_case(c), C02_RULES)) {
+        return Some(f);
+    }
+    STEER_F7.store((ctx.known_open(SIG_F7) || ctx.known_open(SIG_F7B)) && std::env::var("VERIF_NO_STEER").is_err(), Ordering::SeqCst);
+    ctx.search("xthread.exec", case_strategy(), ctx.tier.pick(2_500, 40_000), 6, None, |c| xthread_relabel(run_case(c), C02_RULES))
+}
+
+pub fn xthread_replay(_sub: &str, case: serde_json::Value) -> Result<Option<Violation>, String> {
+    STEER_F7.store(false, Ordering::SeqCst);
+    let c: Case = serde_json::from_value(case).map_err(|e| e.to_string())?;
+    Ok(crate::props::histprops::xthread_relabel(run_case(&c), C02_RULES).1)
+}
